@@ -100,7 +100,8 @@ def one_case(rng):
     kind = rng.choice(["manager", "manager", "manager", "proxy", "pool"])
     c = c05.one_case(rng, kind)
     c["redirect"] = True
-    hs = [["X-Keep", "1"], ["Accept-Language", "en"]]
+    # (sometimes nothing but credentials: a mapping that is empty once they are stripped)
+    hs = [] if rng.random() < 0.15 else [["X-Keep", "1"], ["Accept-Language", "en"]]
     for name in rng.sample(SENSITIVE, rng.randint(1, 3)):
         if name.lower() in {h[0].lower() for h in hs}:
             # the same field again: only meaningful for an HTTPHeaderDict (repeated field, any casing)
@@ -108,7 +109,7 @@ def one_case(rng):
                 hs.append([name, "secret2-" + name[:3]])
             continue
         hs.append([name, "secret-" + name[:3]])
-    if c["body"]:
+    if c["body"] and len(hs) > 3:
         hs.append(["Content-Type", "text/plain"])
     c["headers"] = hs
     # a policy that keeps the chain going, sometimes with a custom removal set
@@ -148,6 +149,16 @@ def cases(rng, tier):
                                 "script": [{"status": code, "to": A + ["/step2"], "form": "path"}, {"status": code, "to": tgt, "form": form},
                                            {"status": 302, "to": A + ["/back"], "form": "abs"}, {"status": 200, "to": None, "form": "abs"},
                                            {"status": 200, "to": None, "form": "abs"}]})
+    # nothing but credentials, as request headers and as manager-level defaults: stripping leaves an empty mapping
+    for hk in ("dict", "hd", "default"):
+        for code in (301, 302, 303, 307, 308):
+            for hs in ([["Authorization", "s1"]], [["Cookie", "c=1"], ["authorization", "s1"]], [["Proxy-Authorization", "p"]]):
+                for kind in ("manager", "proxy"):
+                    out.append({"kind": kind, "redirect": True, "assert_same_host": False, "start": A + ["/start"], "method": "GET", "body": False,
+                                "headers": hs, "hkind": hk, "kw": ["retry", {"total": 5, "redirect": 5}], "pool": ["none"],
+                                "script": [{"status": code, "to": ["http", "b.example", 8080, "/final"], "form": "abs"},
+                                           {"status": 302, "to": ["http", "c.example", None, "/third"], "form": "abs"},
+                                           {"status": 200, "to": None, "form": "abs"}, {"status": 200, "to": None, "form": "abs"}]})
     return out
 
 
